@@ -52,7 +52,8 @@ func main() {
 			return
 		}
 		var cases []isish.Case
-		for _, ic := range isish.IfaceCases(6, []int{0, 6, 11}) {
+		// thorough: additionally every sequence of length 7 and 8
+		for _, ic := range isish.IfaceCases(r.N(6, 8), []int{0, 6, 11}) {
 			cases = append(cases, isish.Case{Kind: "iface", Raw: isish.MustJSON(ic)})
 		}
 		nExh := len(cases)
